@@ -34,14 +34,27 @@ MANIFEST = dict(
          'data and touch nothing that existed before; two writers to the SAME destination leave old or one complete '
          'content; the temp-name loop settles on the least free index and no interleaving makes an index exceed N+2 '
          '(N = highest stale temp index); BSP.save = rebuild phase without file-system operations + one writer. '
+         'One object used for several with-blocks (round 3, SM/AtomicReuse.v): the generated object aw_obj carries the '
+         'attribute slots __exit__ mentions, their values after __init__, what __enter__/make_tempfile assign on every '
+         'entry and which attributes are constant; reuse_indep aw_obj (kernel enumeration of EVERY attribute state) says the '
+         'exit protocol is the same whatever earlier uses left behind, and then every use of every history of successful / '
+         'abandoned / failing / killed uses is a good single use relative to the directory it started in, and temp files '
+         'do not accumulate (c12_reuse_history, c12_reuse_no_temp_accumulates; a flag attribute that nothing resets is '
+         'refuted by a computed history). '
          'translate/c12_atomic.py transliterates __exit__ statement by statement (fail-closed) and reads the facts of '
-         'make_tempfile and BSP.save; the kernel computes the decision trees and 30 named obligations (order of close / '
+         'make_tempfile and BSP.save (helper methods of the class and single-assignment locals are inlined first, '
+         'keyword and positional arguments are the same call); the kernel computes the decision trees and 32 named obligations (order of close / '
          'rename / unlink, no rename after a failing close or a body exception, every failure path unlinks, no exception '
          'swallowed, loop shape, only AtomicWriter output in BSP.save). The real AtomicWriter and BSP.save (existing and '
          'fresh destination, raising body, raising rebuild phase) are run under file-system interposition with a kill '
          '(os._exit in a forked child) before every operation, an OSError at every operation, all interleavings / all '
          'pairs of operation boundaries of two writers and an OSError at every operation of several schedules; traces, '
          'directories, rename and raised/returned outcomes are compared with the tree machine of the generated program. '
+         'Reuse histories of one real object (words over S = body returns / B = body raises, an OSError at every operation '
+         'of the whole history, a kill before every operation of the later uses) are judged use by use by the oracle and '
+         'compared with corr_hist aw_obj; the instance attributes of the real object after __init__, inside every body and '
+         'after every __exit__ are compared with the generated object facts and the leaf environment of __exit__ '
+         '(corr_attrs). '
          'The kernel interpreter and the transliteration are themselves tied to CPython: fixed and random __exit__ bodies '
          'of the subset run against mock objects under result oracles and must perform the same calls and end the same '
          'way as walk (exit_tree ..).',
@@ -53,11 +66,14 @@ MANIFEST = dict(
          'can satisfy it); pathlib swallows an OSError from mkdir of an existing directory, so that fault is only injected '
          'when the directory is created. Exit programs outside the five-flag family are modelled and compared but the '
          'theorems do not apply to them (obligation exit_protocol_in_model_family). Buffering inside BufferedWriter/'
-         'TextIOWrapper, Path.mkdir internals and BSP lump serialisation are only exercised, not modelled; reuse of one '
-         'AtomicWriter for several with-blocks is not covered.',
+         'TextIOWrapper, Path.mkdir internals and BSP lump serialisation are only exercised, not modelled. Reuse: the '
+         'object facts (_object_facts in the translator) are read, not proved; they are tied by the executed attribute '
+         'correspondence. Attribute values outside None/True/False/handle/temp name/destination/exception are "unknown" '
+         '(reading one is outside the model: obligation exit_no_unmodelled_step). make_tempfile called while a temp file '
+         'is open (nested entry: "not reentrant") is not covered.',
 )
 
-IMPORTS = ['SV.SM.AtomicWriter', 'SV.SM.AtomicExit', 'SV.Gen.AtomicWriter_gen', 'Coq.Lists.List', 'Coq.Bool.Bool',
+IMPORTS = ['SV.SM.AtomicWriter', 'SV.SM.AtomicExit', 'SV.SM.AtomicReuse', 'SV.Gen.AtomicWriter_gen', 'Coq.Lists.List', 'Coq.Bool.Bool',
            'Coq.Arith.PeanoNat']
 PRE = 'Import ListNotations.\n'
 
@@ -67,14 +83,18 @@ W_MODES = set('wxa+')
 
 
 def is_big(ck: Ck) -> bool:
-    """Thorough budgets: thorough tier or a broken tie."""
-    return ck.thorough or bool(ck.tie_broken)
+    """Thorough budgets: the thorough tier, or a broken tie for which no failing input has been found yet (the budgets
+    are escalated in order to find one; once the search has a concrete violation the remaining stages run with the
+    `escalated` budgets: a mutated tree took 530-550 s in the quick tier, most of it in the full BSP.save and
+    two-writer matrices after the replays were already written)."""
+    return ck.thorough or (bool(ck.tie_broken) and not ck.violations)
 
 
 def escalated(ck: Ck) -> bool:
-    """Also true when the AST digest of AtomicWriter is not one the model was written against (DESIGN 5.4): more random
-    scenarios and every BSP.save kill/fault point, but not the full thorough matrix."""
-    return is_big(ck) or bool(ck.extra.get('escalated_by_digest'))
+    """Also true when the AST digest of AtomicWriter is not one the model was written against (DESIGN 5.4) or a tie is
+    broken: more random scenarios, more histories, three times the sample of BSP.save kill points, but not the full
+    thorough matrix."""
+    return is_big(ck) or bool(ck.tie_broken) or bool(ck.extra.get('escalated_by_digest'))
 
 
 def budget(ck: Ck, quick: int, thorough: int) -> int:
@@ -103,6 +123,12 @@ class FsSim:
         self.wids: dict[int, int] = {}
         self.phase: dict[int, tuple[str, bool]] = {}
         self.lock = threading.Lock()
+        self.use_idx = 0          # which `with` block of a reuse history is running
+        self.snaps: list[tuple[int, str, bool, dict, type]] | None = None     # instance attributes of the writer object
+
+    def snap(self, tag: str, obj: Any, exc: bool = False) -> None:
+        if self.snaps is not None:
+            self.snaps.append((self.use_idx, tag, exc, dict(vars(obj)), type(obj)))
 
     # -- helpers
     def wid(self) -> int:
@@ -136,7 +162,7 @@ class FsSim:
             self.n += 1
             k = self.n
             ph, exc = self.phase.get(w, ('pre', False))
-            rec = dict(k=k, w=w, op=op, name=name, res='ok', phase=ph, exc=exc, inj=inj, **kw)
+            rec = dict(k=k, w=w, op=op, name=name, res='ok', phase=ph, exc=exc, inj=inj, u=self.use_idx, **kw)
             self.ops.append(rec)
         if self.crash_at is not None and k == self.crash_at + 1:
             os._exit(77)
@@ -267,8 +293,13 @@ def make_spy_class(sim: FsSim):
     class AWSpy(srctools.AtomicWriter):       # phase markers only; all behaviour is the real class's
         def __enter__(self):
             sim.set_phase('enter')
-            f = super().__enter__()
+            try:
+                f = super().__enter__()
+            except BaseException:
+                sim.snap('entry-failed', self)
+                raise
             sim.set_phase('body')
+            sim.snap('mid', self)
             return f
 
         def __exit__(self, et, ev, tb):
@@ -277,6 +308,7 @@ def make_spy_class(sim: FsSim):
                 return super().__exit__(et, ev, tb)
             finally:
                 sim.set_phase('done')
+                sim.snap('after', self, et is not None)
     return AWSpy
 
 
@@ -721,10 +753,12 @@ def _single_scenario(ck0: Ck, work: Path, si: int, sc: dict, do_model: bool, cas
         # ---- a kill before every operation (k operations completed), executed in a forked child
         # long traces (BSP.save: one raw write per deferred header slot): the quick tier executes every kill/fault point
         # that is not a write plus a seeded sample of the writes; the thorough tier (and any broken tie) executes all
-        full = len(ops0) <= 24 or escalated(ck)
+        # (a source that merely differs from the known digests triples the sample; every point only in the thorough tier
+        # or when a tie is broken: an escalated BSP stage took 150-480 s for a behaviour-preserving refactoring)
+        full = len(ops0) <= 24 or is_big(ck) or (escalated(ck) and not sc.get('bsp'))
         keep = {o['k'] for o in ops0 if o['op'] != 'write'} | {len(ops0)} | {0}
         wks = [o['k'] for o in ops0 if o['op'] == 'write']
-        keep |= set(wks[:2] + wks[-2:] + ck.rng.sample(wks, min(len(wks), 10)))
+        keep |= set(wks[:2] + wks[-2:] + ck.rng.sample(wks, min(len(wks), 30 if escalated(ck) else 10)))
         for k in range(0, len(ops0) + 1):
             if not full and k not in keep and (k + 1) not in keep:
                 continue
@@ -799,7 +833,7 @@ def _single_scenario(ck0: Ck, work: Path, si: int, sc: dict, do_model: bool, cas
                      {'run': f'OSError at op {k} ({at})', 'scenario': sc_json(sc), 'why': whyf}, False)
             # ---- a second OSError at every operation that follows the first one (the cleanup of the cleanup):
             # exercises the second level of the decision trees (close fails AND unlink fails, rename fails AND ...)
-            if sc.get('bsp') and not escalated(ck):
+            if sc.get('bsp') and not is_big(ck):
                 continue
             for o2 in [x for x in r['ops'] if x['k'] > k and x['inj']]:
                 k2 = o2['k']
@@ -832,8 +866,8 @@ def _single_scenario(ck0: Ck, work: Path, si: int, sc: dict, do_model: bool, cas
 def eval_cases(ck: Ck, cases: list[dict], tag: str) -> None:
     bad: list[dict] = []
     n = 0
-    for lo in range(0, len(cases), 400):
-        part = cases[lo:lo + 400]
+    for lo in range(0, len(cases), 700):
+        part = cases[lo:lo + 700]
         vals = ck.coq_eval(IMPORTS, [coq_list(c['coq'] for c in part)], name=f'aw_{tag}', preamble=PRE)
         if vals is None:
             ck.obligation(f'correspondence:{tag}', False, 'model could not be evaluated')
@@ -960,6 +994,402 @@ def bsp_scenarios(ck: Ck) -> list[dict]:
     return out
 
 
+# =============================================================================================== reuse histories
+# One AtomicWriter object, several `with` blocks ("not reentrant, but can be repeated").  A history is a word over
+# S (the body returns) / B (the body raises after some writes); OSErrors are injected on top.  What survives a use is
+# the object's instance attributes: every use must behave like the single use of a fresh object in the directory the
+# previous use left (c12_reuse_history), whatever came before it.
+def run_history(hs: dict, root: str, fault_at: Any = None, crash_at: int | None = None) -> dict:
+    populate(root, hs)
+    dest = os.path.join(root, hs['dest'])
+    sim = FsSim(root, hs.get('bufsize', 8192), fault_at, crash_at)
+    outcomes: list[str] = []
+    listings: list[dict[str, bytes]] = [listing(root)]
+    with sim:
+        AWSpy = make_spy_class(sim)
+        aw = AWSpy(dest, is_bytes=not hs.get('text'), **({'encoding': hs['encoding']} if hs.get('text') else {}))
+        sim.snaps = []
+        sim.snap('init', aw)
+        for u, use in enumerate(hs['uses']):
+            sim.use_idx = u
+            sim.set_phase('pre')
+            outcome = 'ok'
+            try:
+                with aw as f:
+                    body_plain(use)(f)
+            except BodyError:
+                outcome = 'body'
+            except OSError as e:
+                outcome = 'oserror' if e.errno == errno.EIO else f'oserror:{type(e).__name__}'
+            except Exception as e:
+                outcome = f'other:{type(e).__name__}:{e}'
+            outcomes.append(outcome)
+            listings.append(listing(root))
+    return dict(ops=sim.ops, outcomes=outcomes, listings=listings, snaps=sim.snaps, dest=dest)
+
+
+def run_history_crash(hs: dict, root: str, k: int) -> tuple[int, dict[str, bytes]]:
+    pid = os.fork()
+    if pid == 0:
+        try:
+            run_history(hs, root, crash_at=k)
+        except BaseException:
+            os._exit(3)
+        os._exit(0)
+    _, status = os.waitpid(pid, 0)
+    return os.waitstatus_to_exitcode(status), listing(root)
+
+
+def history_scenarios(ck: Ck) -> list[dict]:
+    OLD = b'OLD-CONTENT-0123456789'
+    out: list[dict] = []
+
+    def uses_of(word: str, text: bool) -> list[dict]:
+        us = []
+        for u, ch in enumerate(word):
+            chunks: list[Any] = [b'U%d-AAAA' % u, b'U%d-BBBBBB' % u, b'U%d-CC' % u]
+            if text:
+                chunks = [c.decode() + '\n' for c in chunks]
+            us.append(dict(chunks=chunks, **({'raise_after': 1 + u % 2} if ch == 'B' else {})))
+        return us
+
+    def add(word: str, **kw: Any) -> None:
+        hs = dict(kind=f'history-{word}' + ('-text' if kw.get('text') else '') + ('-stale' if 'init' in kw else ''),
+                  word=word, dest='out.bin', init={'out.bin': OLD, 'keep.txt': b'keep'}, bufsize=1)
+        hs.update(kw)
+        hs['uses'] = uses_of(word, bool(hs.get('text')))
+        out.append(hs)
+    words = ['S', 'B', 'SS', 'SB', 'BS', 'BB', 'SSB', 'BSB', 'SBS', 'SBB']
+    if escalated(ck):
+        words += ['SSS', 'BBS', 'BSS', 'BBB', 'SSSB', 'SBSB', 'BSBS', 'SSBB', 'SBBS']
+    for w in words:
+        add(w)
+    add('SB', bufsize=8192)
+    add('SBS', init={'out.bin': OLD, 'tmp_1': b'STALE1', 'keep.txt': b'k'}, bufsize=6)
+    add('SB', text=True, encoding='utf8', bufsize=8192)
+    add('BS', text=True, encoding='utf8', bufsize=4)
+    add('SSB', init={'keep.txt': b'k'}, bufsize=8192)          # the destination does not exist before the first use
+    for _ in range(budget(ck, 2, 12)):
+        w = ''.join(ck.rng.choice('SB') for _ in range(ck.rng.choice([2, 3, 3, 4])))
+        init = {'keep.txt': b'keep'}
+        if ck.rng.random() < 0.8:
+            init['out.bin'] = OLD
+        for i in ck.rng.sample([1, 2, 3], ck.rng.choice([0, 0, 1, 2])):
+            init[f'tmp_{i}'] = b'STALE%d' % i
+        add(w, init=init, bufsize=ck.rng.choice([1, 5, 16, 8192]))
+    return out
+
+
+def hist_replay_obj(mode: str, hs: dict, k: Any) -> dict:
+    d = {x: v for x, v in hs.items() if x not in ('uses', 'init')}
+    d['init'] = {n: v.hex() for n, v in hs['init'].items()}
+    d['uses'] = [{**u, 'chunks': [c.hex() if isinstance(c, bytes) else c for c in u['chunks']]} for u in hs['uses']]
+    return {'mode': mode, 'history': d, 'k': k,
+            'how': './check C12 --replay <this file> re-runs the history (one AtomicWriter object, one `with` block per '
+                   'letter of `word`: S = body returns, B = body raises) with the same OSError / kill point k'}
+
+
+_MISSING = object()
+
+
+def abs_attr(v: Any, dest: str) -> str | None:
+    """A real attribute value -> the abstract value of SM/AtomicExit.v (None: outside xval / unbound)."""
+    if v is None:
+        return 'VNone'
+    if v is True or v is False:
+        return 'VTrue' if v else 'VFalse'
+    if isinstance(v, io.IOBase):
+        return 'VTemp'
+    if isinstance(v, BaseException) or (isinstance(v, type) and issubclass(v, BaseException)):
+        return 'VExc'
+    if isinstance(v, (str, os.PathLike)):
+        p = os.fspath(v)
+        if os.path.abspath(p) == os.path.abspath(dest):
+            return 'VDest'
+        if os.path.dirname(os.path.abspath(p)) == os.path.dirname(os.path.abspath(dest)) \
+                and NameMap.tmp_index(os.path.basename(p)) is not None:
+            return 'VTName'
+    return None
+
+
+def abs_state(snap: tuple, names: list[str], dest: str) -> list[str | None]:
+    _u, _tag, _exc, d, cls = snap
+    return [abs_attr(d.get(n.removeprefix('self.'), getattr(cls, n.removeprefix('self.'), _MISSING)), dest) for n in names]
+
+
+def coq_astate(a: list[str | None]) -> str:
+    return coq_list('None' if v is None else f'(Some {v})' for v in a)
+
+
+def attr_case(r: dict, per_use: list[dict], names: list[str]) -> tuple[str, list[dict]] | None:
+    """The instance attributes of the real object after __init__, inside every body and after every __exit__ of one
+    executed history -> the arguments of corr_attrs (SM/AtomicReuse.v) + what each row stands for."""
+    snaps, dest = r.get('snaps') or [], r['dest']
+    init = [sn for sn in snaps if sn[1] == 'init']
+    if len(init) != 1:
+        return None
+    cur = abs_state(init[0], names, dest)
+    init_abs = cur
+    rows, info = [], []
+    for u, pu in enumerate(per_use):
+        mid = [sn for sn in snaps if sn[0] == u and sn[1] == 'mid']
+        aft = [sn for sn in snaps if sn[0] == u and sn[1] == 'after']
+        if not mid or not aft:
+            # the entry failed (no __exit__ is run): the model does not say what the attributes hold then, the next use
+            # simply starts from what the real object holds (c12_reuse_history quantifies over every such state)
+            failed = [sn for sn in snaps if sn[0] == u and sn[1] == 'entry-failed']
+            if not failed:
+                break
+            cur = abs_state(failed[0], names, dest)
+            continue
+        oracle = pu['exit_calls']
+        m, a = abs_state(mid[0], names, dest), abs_state(aft[0], names, dest)
+        rows.append(f'({coq_astate(cur)}, {"true" if aft[0][2] else "false"}, {coq_list(map(str, oracle))}, '
+                    f'{coq_astate(m)}, {coq_astate(a)})')
+        info.append(dict(use=u + 1, before=cur, body_raised=aft[0][2], exit_call_results=oracle, inside_body=m, after=a))
+        cur = a
+    return f'corr_attrs aw_obj {coq_astate(init_abs)} {coq_list(rows)}', [dict(after_init=init_abs)] + info
+
+
+def _prev_class(word: str, outcomes: list[str], u: int) -> str:
+    if u == 0:
+        return 'first-use'
+    if outcomes[u - 1] == 'ok':
+        return 'after-a-successful-use'
+    if outcomes[u - 1] == 'body':
+        return 'after-an-abandoned-use'
+    return 'after-a-failed-use'
+
+
+def history_campaign(ck: Ck, do_model: bool) -> None:
+    work = ck.scratch / 'c12_hist'
+    cases: list[dict] = []
+    hss = history_scenarios(ck)
+    for hi, hs in enumerate(hss):
+        def fresh(tag: str, hi: int = hi) -> str:
+            d = str(work / f'h{hi}_{tag}')
+            shutil.rmtree(d, ignore_errors=True)
+            return d
+        base = run_history(hs, fresh('base'))
+        ck.count('history_fault_free_runs')
+        ck.hist('history_word', hs['word'])
+        ops0 = base['ops']
+        nuse = len(hs['uses'])
+        enc = hs.get('encoding', 'utf8')
+        news = [(''.join(u['chunks']).encode(enc) if hs.get('text') else b''.join(u['chunks'])) for u in hs['uses']]
+        # token numbering of every use, from the fault-free run
+        # (use u, j-th raw write) = token 16*u + j: distinct over the whole history, below the tokens of old contents
+        wmaps, scens = [], []
+        wall: dict[int, tuple[int, bytes]] = {}
+        modelled = do_model and nuse <= 5
+        for u, use in enumerate(hs['uses']):
+            wr = [o for o in ops0 if o['u'] == u and o['op'] == 'write']
+            modelled = modelled and len(wr) <= 15
+            wmaps.append({16 * u + j + 1: (o['off'], o['data']) for j, o in enumerate(wr)})
+            wall.update(wmaps[-1])
+            bodyt = [16 * u + j + 1 for j, o in enumerate(wr) if o['phase'] == 'body']
+            if use.get('raise_after') is not None:
+                scens.append(coq_scen(0, bodyt, [], len(bodyt)))
+            else:
+                scens.append(coq_scen(0, bodyt, [16 * u + j + 1 for j, o in enumerate(wr) if o['phase'] == 'exit'], None))
+        nm = NameMap(hs)
+        obj_names = list((ck.extra.get('translated', {}).get('AtomicWriter_gen', {}).get('obj') or {}).get('names', []))
+
+        def judge(r: dict, fault: Any, how: str) -> None:
+            """Oracle on every use of one executed history + one model case for the whole history."""
+            rp = hist_replay_obj('history', hs, fault)
+            per_use: list[dict] | None = []
+            for u, use in enumerate(hs['uses']):
+                before, after, outc = r['listings'][u], r['listings'][u + 1], r['outcomes'][u]
+                uops = [o for o in r['ops'] if o['u'] == u]
+                hit = [o for o in uops if o['res'] == 'fault']
+                raising = use.get('raise_after') is not None
+                pos = _prev_class(hs['word'], r['outcomes'], u)
+                what = (f'history {hs["word"]}, use {u + 1} ({"body raises" if raising else "body returns"}'
+                        f'{", OSError in " + op_label(hit[0]) if hit else ""}; {pos.replace("-", " ")}): ')
+                cause = f'{op_label(hit[0])}-fault' if hit else ('body-exception' if raising else 'success')
+                exp_out = 'body' if raising else 'ok'
+                if (not hit and outc != exp_out) or (hit and (outc == 'ok' or outc.startswith('other'))):
+                    ck.violation(f'reuse:unexpected-outcome-after-{cause}:{pos}', what + f'the with statement ended with {outc}', rp)
+                d = after.get(hs['dest'])
+                if outc == 'ok' and d != news[u]:
+                    ck.violation(f'reuse:wrong-content-after-{cause}:{pos}', what + f'destination holds {d!r:.60}', rp)
+                if outc != 'ok' and d != before.get(hs['dest']):
+                    ck.violation(f'reuse:dest-changed-after-{cause}:{pos}',
+                                 what + f'the use failed ({outc}) but the destination holds {d!r:.60} instead of '
+                                        f'{before.get(hs["dest"])!r:.40}', rp)
+                extra = set(after) - set(before) - {hs['dest']}
+                if extra and not any(o['op'] == 'unlink' for o in hit):
+                    ck.violation(f'reuse:temp-left-after-{cause}:{pos}', what + f'{sorted(extra)} stayed in the directory', rp)
+                for n0, v0 in before.items():
+                    if n0 != hs['dest'] and after.get(n0) != v0:
+                        ck.violation(f'reuse:foreign-file-touched-after-{cause}:{pos}', what + f'{n0} changed or vanished', rp)
+                opens = [(o['name'], o['res']) for o in uops if o['op'] == 'open']
+                if opens and not any(o['op'] in ('mkdir', 'open') for o in hit):
+                    j = 1
+                    while f'tmp_{j}' in before:
+                        j += 1
+                    if opens != [(f'tmp_{i}', 'exist') for i in range(1, j)] + [(f'tmp_{j}', 'ok')]:
+                        ck.violation(f'reuse:temp-name-loop:{pos}', what + f'open attempts {opens[:6]}, expected tmp_1..tmp_{j}', rp)
+                first = uops[0]['op'] if uops else None
+                if first is not None and first != 'mkdir':
+                    ck.violation(f'reuse:entry-does-not-start-afresh:{pos}',
+                                 what + f'the use starts with {first} {uops[0]["name"]} (left over from the previous use)', rp)
+                ck.seen(('history', hs['kind'], repr(fault), u))
+                if not modelled or per_use is None:
+                    continue
+
+                def wtok(n: int, o: dict, u: int = u) -> int:
+                    return 16 * u + n if wmaps[u].get(16 * u + n) == (o['off'], o['data']) else 0
+                evs, why = canon_events(uops, nm, wtok)
+                if evs is None:
+                    if not any(o['name'] == 'correspondence:trace:history' for o in ck.obligations):
+                        ck.obligation('correspondence:trace:history', False, why)
+                        ck.tie_broken.append('correspondence AtomicWriter history trace: ' + why)
+                    per_use = None
+                    continue
+                # the results of the calls __exit__ made, in order (0 ok, 1 OSError, 2 FileNotFoundError): a close() whose
+                # flush was refused raises although the raw close succeeds
+                calls, flush_failed = [], False
+                for o in uops:
+                    if o['phase'] != 'exit':
+                        continue
+                    if o['op'] == 'write':
+                        flush_failed = flush_failed or o['res'] == 'fault'
+                    elif o['op'] == 'close':
+                        calls.append(1 if flush_failed or o['res'] == 'fault' else 0)
+                        flush_failed = False
+                    elif o['op'] in ('replace', 'unlink'):
+                        calls.append({'ok': 0, 'fault': 1, 'noent': 2}.get(o['res'], 1))
+                per_use.append(dict(events=evs, listing=after, returned=outc == 'ok', cut=len(uops) + 5, exit_calls=calls,
+                                    replaced=any(e[0] == 4 and e[3] == 0 for e in evs),
+                                    faults=[i for i, e in enumerate(evs) if e[3] == 3]))
+            if modelled and per_use:
+                # the whole history in the model: every use starts in the directory the model's previous use left
+                max_tmp = max([e[1] for pu in per_use for e in pu['events'] if e[0] != 0]
+                              + [NameMap.tmp_index(b) or 0 for b in nm.init] + [1]) + 1
+                uses = coq_list(f'({scens[u]}, {pu["cut"]}, {coq_list(map(str, pu["faults"]))})' for u, pu in enumerate(per_use))
+                cases.append(dict(coq=f'corr_hist aw_obj {uses} (dir_of {nm.coq_init()}) {coq_list(nm.probe_names(max_tmp))}',
+                                  uses=per_use, nm=nm, wmap=wall, max_tmp=max_tmp, attrs=attr_case(r, per_use, obj_names),
+                                  what={'run': how, 'history': hs['kind'], 'fault': repr(fault)}))
+
+        judge(base, None, 'fault-free history')
+        # ---- one OSError at every injectable operation of the whole history
+        for o in ops0:
+            if not o['inj']:
+                continue
+            r = run_history(hs, fresh('fault'), fault_at=o['k'])
+            if not any(x['res'] == 'fault' for x in r['ops']):
+                continue
+            ck.count('history_fault_runs')
+            ck.hist('history_fault_op', op_label(o))
+            judge(r, o['k'], f'OSError at operation {o["k"]} ({op_label(o)}) of the history')
+        # ---- a kill before every operation of the later uses (the first use is the single-writer campaign)
+        if nuse < 2 or (hi % 3 and not escalated(ck)):
+            continue
+        for k in range(0, len(ops0) + 1):
+            u = ops0[k]['u'] if k < len(ops0) else nuse - 1
+            if u == 0 or (k < len(ops0) and ops0[k]['op'] == 'write' and not escalated(ck) and k % 2):
+                continue
+            rc, lst = run_history_crash(hs, fresh('crash'), k)
+            ck.count('history_crash_points')
+            if rc not in (77, 0):
+                ck.violation(f'crash-child-error:{hs["kind"]}', f'forked child exited with {rc}', {'history': hs['kind'], 'k': k})
+                continue
+            at = op_label(ops0[k]) if k < len(ops0) else 'end'
+            before, new = base['listings'][u], news[u]
+            d = lst.get(hs['dest'])
+            rk = next((o['k'] for o in ops0 if o['u'] == u and o['op'] == 'replace'), None)
+            pos = _prev_class(hs['word'], base['outcomes'], u)
+            rp = hist_replay_obj('history-crash', hs, k)
+            ck.seen(('history-crash', hs['kind'], k))
+            if d != before.get(hs['dest']) and d != new:
+                ck.violation(f'reuse:dest-mixture-at-crash-before-{at}:{pos}',
+                             f'history {hs["word"]} killed after {k} operations (use {u + 1}, before {at}): destination holds '
+                             f'{d!r:.60}', rp)
+            elif d == new and d != before.get(hs['dest']) and (rk is None or k < rk):
+                ck.violation(f'reuse:new-content-before-replace:{at}:{pos}', f'history {hs["word"]} killed after {k} operations', rp)
+            elif rk is not None and k >= rk and d != new:
+                ck.violation(f'reuse:old-content-after-replace:{at}:{pos}', f'history {hs["word"]} killed after {k} operations', rp)
+            extra = set(lst) - set(before) - {hs['dest']}
+            if len(extra) > 1 or any(NameMap.tmp_index(x) is None for x in extra):
+                ck.violation(f'reuse:unexpected-files-at-crash:{at}:{pos}', f'files {sorted(extra)} present after the kill', rp)
+            for n0, v0 in before.items():
+                if n0 != hs['dest'] and lst.get(n0) != v0:
+                    ck.violation(f'reuse:foreign-file-touched-at-crash:{at}:{pos}', f'{n0} changed', rp)
+    ck.extra['histories'] = {'scenarios': len(hss), 'words': sorted({h['word'] for h in hss})}
+    if do_model and cases:
+        eval_hist_cases(ck, cases)
+
+
+def eval_hist_cases(ck: Ck, cases: list[dict]) -> None:
+    bad: list[dict] = []
+    abad: list[dict] = []
+    n = na = 0
+    for lo in range(0, len(cases), 250):
+        part = cases[lo:lo + 250]
+        vals = ck.coq_eval(IMPORTS, [coq_list(c['coq'] for c in part),
+                                     coq_list((c['attrs'][0] if c['attrs'] else '[]') for c in part)],
+                           name='aw_history', preamble=PRE)
+        if vals is None:
+            ck.obligation('correspondence:history', False, 'model could not be evaluated')
+            ck.tie_broken.append('correspondence AtomicWriter (history): model evaluation failed')
+            return
+        res = parse_coq_nested(vals[0])
+        assert len(res) == len(part), (len(res), len(part))
+        for c, arows in zip(part, parse_coq_nested(vals[1])):
+            if not c['attrs']:
+                abad.append({'what': c['what'], 'why': 'no snapshot of the instance attributes after __init__'})
+                continue
+            for row, info in zip(arows, c['attrs'][1]):
+                na += 1
+                ck.count('model_cases_history_attributes')
+                if not all(row):
+                    abad.append({'what': c['what'], 'row': info,
+                                 'agrees': dict(zip(['after __init__'] if 'after_init' in info else ['inside the body', 'after __exit__'], row))})
+        for c, rows in zip(part, res):
+            nm: NameMap = c['nm']
+            diffs: list[dict] = []
+            if len(rows) != len(c['uses']):
+                diffs.append({'model_uses': len(rows), 'real_uses': len(c['uses'])})
+            for u, (row, pu) in enumerate(zip(rows, c['uses'])):
+                n += 1
+                ck.count('model_cases_history')
+                pc, events, probes = row
+                if events != pu['events']:
+                    diffs.append({'use': u + 1, 'events_model': events, 'events_real': pu['events']})
+                if (pc[0] == 1) != pu['replaced'] or (pc[2] == 1) != (not pu['returned']):
+                    diffs.append({'use': u + 1, 'model_pc': pc, 'real_rename_succeeded': pu['replaced'],
+                                  'real_returned_normally': pu['returned']})
+                for b, enc in zip(nm.probe_bases(c['max_tmp']), probes):
+                    toks = opt_content(enc)
+                    real = pu['listing'].get(b)
+                    if NameMap.tmp_index(b) is not None and b not in nm.init:
+                        if (toks is None) != (real is None):       # a temp file of the writer: presence only
+                            diffs.append({'use': u + 1, 'name': b, 'model_present': toks is not None, 'real_present': real is not None})
+                        continue
+                    exp = nm.expect_bytes(toks, c['wmap'])
+                    if exp != real:
+                        diffs.append({'use': u + 1, 'name': b, 'model_tokens': toks, 'model_bytes': repr(exp)[:80], 'real': repr(real)[:80]})
+            if diffs:
+                bad.append({'what': c['what'], 'diffs': diffs[:6]})
+    ck.obligation('correspondence:history', not bad,
+                  f'{n} uses in {len(cases)} executed reuse histories of one real AtomicWriter (fault-free / one OSError at every '
+                  f'operation) vs corr_hist aw_obj (the model threads the directory from use to use): {len(bad)} disagreements')
+    if bad:
+        ck.tie_broken.append('correspondence AtomicWriter (history): real trace/directory differs from the model')
+        ck.extra['history_disagreements'] = bad[:5]
+    ck.obligation('correspondence:history-attributes', not abad,
+                  f'{na} snapshots of the instance attributes of the real object (after __init__, inside the body and after '
+                  f'__exit__ of every use of {len(cases)} executed histories, abstracted to None / True / False / handle / temp '
+                  f'name / destination / exception) vs corr_attrs aw_obj (o_init, entered, the leaf environment of __exit__ on '
+                  f'the path the real calls took): {len(abad)} disagreements')
+    if abad:
+        ck.tie_broken.append('correspondence AtomicWriter (history attributes): the attributes of the real object differ '
+                             'from the generated object facts')
+        ck.extra['history_attribute_disagreements'] = abad[:5]
+
+
 # =============================================================================================== two writers
 def run_two(scs: tuple[dict, dict], root: str, prefix: list[int], init: dict[str, bytes], fault_at: int | None = None):
     """Run two writers in threads under the schedule `prefix` (then: lowest unfinished writer first); `fault_at` = k
@@ -978,7 +1408,8 @@ def run_two(scs: tuple[dict, dict], root: str, prefix: list[int], init: dict[str
             sim.wids[threading.get_ident()] = w
             sc = scs[w]
             try:
-                with AWSpy(os.path.join(root, sc['dest']), is_bytes=True) as f:
+                with AWSpy(os.path.join(root, sc['dest']), is_bytes=not sc.get('text'),
+                           **({'encoding': 'utf8'} if sc.get('text') else {})) as f:
                     body_plain(sc)(f)
             except BodyError:
                 outcomes[w] = 'body'
@@ -1014,18 +1445,25 @@ class Pair:
     def __init__(self, tag: str, sa: dict, sb: dict, init: dict[str, bytes]) -> None:
         self.tag, self.sa, self.sb, self.init = tag, sa, sb, init
         self.nm = NameMap({'init': init, 'dest': sa['dest']}, dests=[sa['dest'], sb['dest']])
-        # token numbering: writer w's j-th chunk is token 10*(w+1)+j
+        # token numbering: writer w's j-th chunk is token 10*(w+1)+j.  A text writer (TextIOWrapper keeps the encoded
+        # chunks until close) issues ONE raw write, during the close on the success path: empty body, one tail token
         toks = [[10 * (w + 1) + j + 1 for j in range(len(s['chunks']) if s.get('raise_after') is None else s['raise_after'])]
                 for w, s in enumerate((sa, sb))]
         self.wmap: dict[int, tuple[int, bytes]] = {}
+        tails: list[list[int]] = [[], []]
         for w, s in enumerate((sa, sb)):
+            if s.get('text'):
+                assert s.get('raise_after') is None
+                toks[w], tails[w] = [], [10 * (w + 1) + 1]
+                self.wmap[10 * (w + 1) + 1] = (0, _data(s))
+                continue
             off = 0
             for j, ch in enumerate(s['chunks']):
                 self.wmap[10 * (w + 1) + j + 1] = (off, ch)
                 off += len(ch)
-        self.scen = [coq_scen(self.nm.files.index(os.path.basename(s['dest'])), toks[w], [], s.get('raise_after'))
+        self.scen = [coq_scen(self.nm.files.index(os.path.basename(s['dest'])), toks[w], tails[w], s.get('raise_after'))
                      for w, s in enumerate((sa, sb))]
-        self.new = [b''.join(s['chunks']) if s.get('raise_after') is None else init.get(s['dest']) for s in (sa, sb)]
+        self.new = [_data(s) if s.get('raise_after') is None else init.get(s['dest']) for s in (sa, sb)]
         self.same_dest = sa['dest'] == sb['dest']
         self.max_tmp = max([NameMap.tmp_index(b) or 0 for b in init] + [0]) + 3
 
@@ -1043,7 +1481,7 @@ def two_check(ck: Ck, P: Pair, r: dict, fault_at: int | None, do_model: bool, ca
     if P.same_dest:
         # same destination: the last successful rename decides; the content must be complete (old / all of A / all of B)
         last = [o['w'] for o in r['ops'] if o['op'] == 'replace' and o['res'] == 'ok']
-        exp = b''.join((sa, sb)[last[-1]]['chunks']) if last else init.get(sa['dest'])
+        exp = _data((sa, sb)[last[-1]]) if last else init.get(sa['dest'])
         if lst.get(sa['dest']) != exp:
             ck.violation('two-writers:same-destination-wrong-content' + sfx,
                          f'{sa["dest"]} holds {lst.get(sa["dest"])!r:.40}, expected {exp!r:.40} (renames by {last})', rp)
@@ -1119,9 +1557,12 @@ def two_writer_campaign(ck: Ck, do_model: bool) -> None:
         # (pair, limit of the exhaustive DFS over schedules; 0 = only boundary pairs)
         (Pair('plain', A1, dict(dest='b.bin', chunks=[b'B1']), {'a.bin': b'OLDA', 'b.bin': b'OLDB', 'keep.txt': b'k'}), 5000),
         (Pair('stale+raise', A1, dict(dest='b.bin', chunks=[b'B1', b'B2'], raise_after=1),
-              {'a.bin': b'OLDA', 'tmp_1': b'STALE1', 'keep.txt': b'k'}), 5000 if big else 40),
+              {'a.bin': b'OLDA', 'tmp_1': b'STALE1', 'keep.txt': b'k'}), 5000 if big else 0),
         (Pair('two-chunks', dict(dest='a.bin', chunks=[b'A1', b'A2']), dict(dest='b.bin', chunks=[b'B1', b'B2']),
               {'a.bin': b'OLDA', 'b.bin': b'OLDB', 'tmp_2': b'STALE2'}), 6000 if big else 0),
+        # a bytes writer next to a text writer (the two open calls of make_tempfile are different code paths)
+        (Pair('bytes+text', dict(dest='a.bin', chunks=[b'A1', b'A2']), dict(dest='b.txt', chunks=['b1\n', 'b2\n'], text=True),
+              {'a.bin': b'OLDA', 'b.txt': b'OLDB', 'keep.txt': b'k'}), 3000 if big else 0),
         (Pair('fresh+stale-gap', dict(dest='a.bin', chunks=[b'A1', b'A2', b'A3']), dict(dest='b.bin', chunks=[]),
               {'tmp_1': b'S1', 'tmp_3': b'S3', 'keep.txt': b'k'}), 0),
         (Pair('same-destination', dict(dest='a.bin', chunks=[b'A1', b'A2']), dict(dest='a.bin', chunks=[b'B1']),
@@ -1162,7 +1603,10 @@ def two_writer_campaign(ck: Ck, do_model: bool) -> None:
             for k1 in range(n1 + 1):
                 for k2 in range(n2 + 1):
                     # quick tier: the mirrored order only for every other pair (the DFS / the theorem cover all)
-                    for prefix in ([[0] * k1 + [1] * k2, [1] * k2 + [0] * k1] if big or (k1 + k2) % 2
+                    # (round 3: the reuse histories took over part of the quick budget; 'fresh+stale-gap' and 'both-raise'
+                    # run the mirrored order only in the thorough tier)
+                    for prefix in ([[0] * k1 + [1] * k2, [1] * k2 + [0] * k1]
+                                   if big or ((k1 + k2) % 2 and tag not in ('fresh+stale-gap', 'both-raise'))
                                    else [[0] * k1 + [1] * k2]):
                         r = run_two((P.sa, P.sb), work, prefix + [1, 0] * 3, P.init)
                         if tuple(r['executed']) in seen_sched:
@@ -1194,14 +1638,18 @@ def two_writer_campaign(ck: Ck, do_model: bool) -> None:
 
 
 def _hexsc(s: dict) -> dict:
-    return {**s, 'chunks': [c.hex() for c in s['chunks']]}
+    return {**s, 'chunks': [c.hex() if isinstance(c, bytes) else c for c in s['chunks']]}
+
+
+def _data(s: dict) -> bytes:
+    return ''.join(s['chunks']).encode('utf8') if s.get('text') else b''.join(s['chunks'])
 
 
 def eval_cases2(ck: Ck, cases: list[dict]) -> None:
     bad = []
     n = 0
-    for lo in range(0, len(cases), 300):
-        part = cases[lo:lo + 300]
+    for lo in range(0, len(cases), 900):
+        part = cases[lo:lo + 900]
         vals = ck.coq_eval(IMPORTS, [coq_list(c['coq'] for c in part)], name='aw_two', preamble=PRE)
         if vals is None:
             ck.obligation('correspondence:two-writers', False, 'model could not be evaluated')
@@ -1596,14 +2044,23 @@ def run(ck: Ck) -> None:
                'injectable raw operation (mkdir, open, write, flush-write, close, replace, unlink); two writers (six pairs, '
                'one with a shared destination) are run under EVERY interleaving (DFS over schedules) or at every pair of '
                'operation boundaries (A^k1 B^k2 and B^k2 A^k1), and with one OSError at every operation of 3-6 schedules. '
-               'A case is distinct by (scenario kind, buffer size, kill/fault index), by the full schedule, or by '
-               '(pair, schedule, fault index); all are non-trivial (each changes where the protocol is interrupted). '
+               'Reuse histories: ONE AtomicWriter object, one with-block per letter of a word over S (body returns) / B (body '
+               'raises after some writes) — S, B, SS, SB, BS, BB, SSB, BSB, SBS, SBB (+ longer and random words when '
+               'escalated), bytes/text, buffer sizes, stale temps, missing destination — run fault-free, with one OSError at '
+               'EVERY injectable operation of the whole history, and killed before every operation of the later uses; every '
+               'use is judged relative to the directory it started in, and the instance attributes of the object are '
+               'snapshotted after __init__, inside every body and after every __exit__. '
+               'A case is distinct by (scenario kind, buffer size, kill/fault index), by the full schedule, by '
+               '(pair, schedule, fault index), or by (history, fault/kill index, use); all are non-trivial (each changes where '
+               'the protocol is interrupted). '
                'Interpreter tie: program = random __exit__ body of the translator subset (2-5 top-level statements, depth <= 3, '
                '<= 5 file-system calls) x {body returned, body raised} x 10 result oracles; distinct by (program, exc, oracle), '
                'non-trivial when at least one call is performed.')
     ck.trusted.append('hand-written machines SM/AtomicWriter.v (flags) and SM/AtomicExit.v (decision trees + interpreter of '
                       'the generated __exit__ program), tied by the proved refinement, by the kernel-computed obligations on '
-                      'the generated program and by the executed crash/fault/interleaving correspondence on every run')
+                      'the generated program and by the executed crash/fault/interleaving correspondence on every run; '
+                      'SM/AtomicReuse.v (attribute states, histories) on top of them, its generated object facts '
+                      '(translate/c12_atomic._object_facts) tied by the executed history and attribute correspondences')
     ck.trusted.append('checks/c12.py interposer: io.FileIO subclass under the BufferedWriter/TextIOWrapper, patched io.open / '
                       'os.mkdir / os.unlink / os.replace; POSIX rename atomicity and O_EXCL are assumed, not verified')
     ck.assumptions += [
@@ -1644,9 +2101,13 @@ def run(ck: Ck) -> None:
             'exit_every_failure_path_unlinks_temp': f'cleans ({ok2}) false && cleans ({fl2}) false',
             'exit_never_swallows_an_exception': f'propagates ({ok2}) false && propagates ({fl2}) true',
             'exit_success_returns_normally': f'ok_path_returns ({ok2})',
-            'exit_without_enter_does_nothing':
-                'xtree_eqb (exit_tree_unentered aw_exit_prog false) (XDone false) && '
-                'xtree_eqb (exit_tree_unentered aw_exit_prog true) (XDone true)',
+            'exit_without_enter_does_nothing': 'unentered_exit_is_inert aw_obj',
+            # one object, several `with` blocks (c12_reuse_* speak about an object with reuse_indep = true): whatever
+            # the earlier uses left in the instance attributes, the next use runs the protocol of a fresh object
+            'reuse_exit_protocol_independent_of_earlier_uses': 'reuse_indep aw_obj',
+            'reuse_exit_always_clears_the_temp_handle': 'exit_always_leaves aw_obj 0 VNone',
+            'reuse_fresh_object_is_unentered': 'init_unentered aw_obj',
+            'reuse_enter_binds_handle_and_temp_name': 'enter_binds aw_obj',
             'temp_is_sibling_of_destination': 'aw_tmp_sibling',
             # the temp-name loop (c12_open_loop_least_free / c12_temp_index_bounded speak about this loop)
             'temp_loop_starts_at_1_and_is_unbounded': 'Nat.eqb aw_loop_start 1 && aw_loop_unbounded',
@@ -1688,6 +2149,9 @@ def _campaigns(ck: Ck, built: bool) -> None:
     single_campaign(ck, scs, bool(built))
     stage['single'] = round(time.time() - t1, 1)
     t1 = time.time()
+    history_campaign(ck, bool(built))
+    stage['history'] = round(time.time() - t1, 1)
+    t1 = time.time()
     try:
         bscs = bsp_scenarios(ck)
     except Exception as e:     # the BSP sample could not be prepared: say so, do not hide it
@@ -1698,7 +2162,8 @@ def _campaigns(ck: Ck, built: bool) -> None:
     t1 = time.time()
     two_writer_campaign(ck, bool(built))
     stage['two'] = round(time.time() - t1, 1)
-    keys = {v['key'].removeprefix('bsp-save:') for v in ck.violations}
+    reuse_keys = [v['key'] for v in ck.violations if v['key'].startswith('reuse:')]
+    keys = {v['key'].removeprefix('bsp-save:').removeprefix('reuse:') for v in ck.violations}
     # which failed obligations a concrete violation (with a replay) explains
     temp_left = any(k.startswith(('temp-left-after-', 'two-writers:temp-left', 'unexpected-files')) for k in keys)
     dest_bad = any('mixture' in k or k.startswith(('dest-changed', 'new-content', 'old-content', 'wrong-content',
@@ -1725,6 +2190,7 @@ def _campaigns(ck: Ck, built: bool) -> None:
         (any(k.startswith(('temp-name-loop', 'unexpected-outcome', 'two-writers:', 'foreign-file')) for k in keys),
          ['instance:temp_loop_']),
         (bool(ck.extra.get('bsp_violations')), ['instance:bsp_', 'translate:']),
+        (bool(reuse_keys), ['instance:reuse_', 'instance:exit_without_enter', 'translate:', 'correspondence:']),
     ]
     for cond, names in table:
         if cond:
@@ -1769,10 +2235,25 @@ def replay(data: dict) -> int:
                 print('operations:', [(o['op'], o['name'], o['res']) for o in res['ops']])
                 print('outcome:', res['outcome'])
             print('after :', {k: v[:40] for k, v in lst.items()})
+        elif r['mode'] in ('history', 'history-crash'):
+            hs = dict(r['history'])
+            hs['init'] = {n: bytes.fromhex(v) for n, v in hs['init'].items()}
+            hs['uses'] = [{**u, 'chunks': [c if hs.get('text') else bytes.fromhex(c) for c in u['chunks']]} for u in hs['uses']]
+            print('before:', {k: v[:40] for k, v in hs['init'].items()})
+            if r['mode'] == 'history-crash':
+                rc, lst = run_history_crash(hs, os.path.join(root, 'd'), r['k'])
+                print(f'history {hs["word"]} killed after {r["k"]} operations (child exit {rc})')
+                print('after :', {k: v[:40] for k, v in lst.items()})
+            else:
+                k = r['k']
+                res = run_history(hs, os.path.join(root, 'd'), fault_at=frozenset(k) if isinstance(k, list) else k)
+                for u, letter in enumerate(hs['word']):
+                    print(f'use {u + 1} ({letter}):', [(o['op'], o['name'], o['res']) for o in res['ops'] if o['u'] == u])
+                    print('   outcome:', res['outcomes'][u], ' directory:', {k: v[:40] for k, v in res['listings'][u + 1].items()})
         elif r['mode'] == 'two':
             sa = dict(r['a']); sb = dict(r['b'])
             for s in (sa, sb):
-                s['chunks'] = [bytes.fromhex(c) for c in s['chunks']]
+                s['chunks'] = [c if s.get('text') else bytes.fromhex(c) for c in s['chunks']]
             init = {n: bytes.fromhex(v) for n, v in r['scenario']['init'].items()}
             res = run_two((sa, sb), os.path.join(root, 'd'), r['schedule'], init, fault_at=r.get('fault_at'))
             print('operations:', [(o['w'], o['op'], o['name'], o['res']) for o in res['ops']])
